@@ -19,6 +19,10 @@ def make_case(rng):
                 n=int(rng.randint(1, 5)), jit=bool(rng.rand() < 0.5), given_params=bool(rng.rand() < 0.5))
 
 
+PINNED_MISMATCH = [dict(rates=[20.0, 5.0, 2.0], win=[2, 1, 2, 1], ts_max=1.5, eps=2, key=11, jitter=True, mode="MCS", prune=False, skip=False, names="plain", start_step=0, start_eps=0, n=2, jit=True, given_params=False),
+                   dict(rates=[25.0, 10.0, 5.0], win=[1, 2, 1, 1], ts_max=1.0, eps=3, key=5, jitter=True, mode="GENERATIONAL", prune=True, skip=False, names="prefix", start_step=0, start_eps=1, n=3, jit=False, given_params=True)]
+
+
 def tree_diff(a, b, jax):
     la, ta = jax.tree_util.tree_flatten(a)
     lb, tb = jax.tree_util.tree_flatten(b)
@@ -82,6 +86,9 @@ def run_case(case):
             new_rng, k = jax.random.split(ss.rng)
             tot = sum([jnp.sum(jnp.where(i.seq >= 0, i.data.y + 0.01 * i.seq, 0.0)) for i in ss.inputs.values()], 0.0)
             acc = 0.9 * ss.state.acc + 0.1 * tot + jax.random.uniform(k) + ss.params.acc
+            if case.get("mismatch") and self.code == 1:
+                # a payload whose dtype differs from the declared default output (float32): lax.cond cannot unify the masked step with its no-op
+                return ss.replace(rng=new_rng, state=St(ss.state.cnt + 1, acc)), Out(acc.astype(jnp.int32), jnp.asarray(ss.seq))
             return ss.replace(rng=new_rng, state=St(ss.state.cnt + 1, acc)), Out(acc, jnp.asarray(ss.seq))
     r = case["rates"]
     nm = {"plain": ("a", "b", "c"), "prefix": ("a", "a_x", "c")}[case["names"]]
@@ -111,6 +118,34 @@ def run_case(case):
     if given is not None and float(gs0.params[nm[1]].acc) != 0.75:
         bad.append(("C09-given-params-not-used", f"params given for {nm[1]} are not what the graph state holds"))
     n = case["n"]
+
+    def scheduled():
+        code_of = {nm[0]: 0, nm[1]: 1, nm[2]: 2}
+        want = {k: [] for k in code_of}
+        for p in range(s0, min(s0 + n + 1, n_steps)):
+            for gen in T.to_generation():
+                for sname, s in gen.items():
+                    if s.run[e0, p] and not (skip and s.kind in skip) and not (s.kind == nm[2] and p == s0 + n):
+                        want[s.kind].append(int(s.seq[e0, p]))
+        return code_of, want
+    if case.get("mismatch"):
+        # C06 under a tracing failure of the masked execution: either the graph refuses the node (TypeError, nothing is executed) or what it executes is exactly the schedule
+        log.clear()
+        try:
+            x = gs0
+            for _ in range(n):
+                x = run(x)
+            rus(x)
+            jax.effects_barrier()
+        except TypeError:
+            return [], 1
+        code_of, want = scheduled()
+        if s0 + n + 1 <= n_steps:
+            for kind, code in code_of.items():
+                got = [q for (cd, q) in log if cd == code]
+                if got != want[kind]:
+                    bad.append(("C06-executed-ticks-differ-from-schedule", f"{kind} (payload dtype differs from its default output; lax.cond could not unify the masked step): executed seqs {got[:20]}, scheduled (unmasked, not skipped) {want[kind][:20]}"))
+        return [dict(kind=k, what=w) for k, w in bad], len(code_of)
     # ---- the three driving styles
     log.clear()
     x = gs0
@@ -236,6 +271,8 @@ def main():
     rng = np.random.RandomState(9000 + a.seed)
     t0 = time.time()
     cases = [make_case(rng) for _ in range(a.n)]
+    # C06 under a tracing failure: pinned multi-rate jittery graphs whose middle node returns a payload of another dtype than it declared, plus every 4th random case again with that node
+    cases += [dict(c, mismatch=True) for c in PINNED_MISMATCH] + [dict(c, mismatch=True, skip=False) for c in cases[::4]]
     import multiprocessing as mp
     with mp.get_context("spawn").Pool(min(12, a.n)) as pool:
         outs = pool.map(_safe, cases)
